@@ -182,16 +182,23 @@ def has_same_group_overlap(tes):
 
 
 def write_pair(case, gene_path, te_path, cfg_path=None):
+    """case may carry drop_gene_cols / drop_te_cols (lists of column names to omit)"""
+    gcols = ["Gene_Name", "Chromosome", "Feature", "Start", "Stop", "Strand", "Length"]
+    tcols = ["Chromosome", "Start", "Stop", "Strand", "Order", "SuperFamily", "Length"]
+    gcols = [c for c in gcols if c not in case.get("drop_gene_cols", [])]
+    tcols = [c for c in tcols if c not in case.get("drop_te_cols", [])]
     with open(gene_path, "w") as f:
-        f.write("Gene_Name\tChromosome\tFeature\tStart\tStop\tStrand\tLength\n")
+        f.write("\t".join(gcols) + "\n")
         for g in case["genes"]:
-            f.write("%s\t%s\tgene\t%d\t%d\t%s\t%d\n" % (g["name"], g["chrom"], g["start"], g["stop"], g["strand"],
-                                                      g.get("length", g["stop"] - g["start"] + 1)))
+            row = {"Gene_Name": g["name"], "Chromosome": g["chrom"], "Feature": "gene", "Start": "%d" % g["start"], "Stop": "%d" % g["stop"],
+                   "Strand": g["strand"], "Length": "%d" % g.get("length", g["stop"] - g["start"] + 1)}
+            f.write("\t".join(row[c] for c in gcols) + "\n")
     with open(te_path, "w") as f:
-        f.write("Chromosome\tStart\tStop\tStrand\tOrder\tSuperFamily\tLength\n")
+        f.write("\t".join(tcols) + "\n")
         for t in case["tes"]:
-            f.write("%s\t%d\t%d\t%s\t%s\t%s\t%d\n" % (t["chrom"], t["start"], t["stop"], t.get("strand", "+"), t["order"],
-                                                     t["superfam"], t["stop"] - t["start"] + 1))
+            row = {"Chromosome": t["chrom"], "Start": "%d" % t["start"], "Stop": "%d" % t["stop"], "Strand": t.get("strand", "+"),
+                   "Order": t["order"], "SuperFamily": t["superfam"], "Length": "%d" % (t["stop"] - t["start"] + 1)}
+            f.write("\t".join(row[c] for c in tcols) + "\n")
     if cfg_path:
         first, delta, last = case["windows"]
         with open(cfg_path, "w") as f:
